@@ -379,6 +379,9 @@ type c25cOp struct {
 	SN     *snref.Pkt  `json:"sn,omitempty"`
 	AdvMs  int         `json:"adv_ms,omitempty"`
 	NoWait bool        `json:"nowait,omitempty"`
+	// Ack: for once the gateway answers the client's most recent datagram properly (so that
+	// subscriptions and registrations really come into being and later packets meet them)
+	Ack bool `json:"ack,omitempty"`
 }
 
 type c25cCase struct {
@@ -393,13 +396,15 @@ func genC25Client(t *rapid.T) c25cCase {
 		switch k := rapid.IntRange(0, 9).Draw(t, "kind"); {
 		case k == 0:
 			c.Steps = append(c.Steps, c25cOp{AdvMs: rapid.SampledFrom([]int{1, 100, 1000, 1100, 61000}).Draw(t, "adv")})
+		case k == 6 || k == 7:
+			c.Steps = append(c.Steps, c25cOp{Ack: true})
 		case k < 3:
 			var cl clsim.Call
 			switch rapid.IntRange(0, 8).Draw(t, "api") {
 			case 0:
 				cl = clsim.Call{API: "Register", Topic: "t/r"}
 			case 1:
-				cl = clsim.Call{API: "Subscribe", Topic: rapid.SampledFrom([]string{"t/a", "#", "ab"}).Draw(t, "filter"), QoS: 1}
+				cl = clsim.Call{API: "Subscribe", Topic: rapid.SampledFrom([]string{"t/a", "#", "ab", "ab/c", "ab/+", "p/seven/x", "+/+/+", "t/r/more"}).Draw(t, "filter"), QoS: 1}
 			case 2:
 				cl = clsim.Call{API: "Publish", Topic: "ab", QoS: uint8(rapid.IntRange(0, 3).Draw(t, "qos")), Payload: []byte("x")}
 			case 3:
@@ -487,7 +492,7 @@ func genC25Client(t *rapid.T) c25cCase {
 func TestC25Gateway(t *testing.T) {
 	vf.Check(t, vf.Prop[c25cCase]{
 		ID: "C25", Name: "hostile-gateway-to-client", Bubble: true, MarkCurrent: true,
-		Rule: "real client (with and without keep-alive) against a hostile gateway: 1-40 steps mixing decodable packets of all 28 types with generated fields (message and topic IDs from small pools so that they hit the client's own exchanges, reserved topic-ID type), fragments of QoS 2 deliveries sharing one message ID (PUBLISH copies with drawn DUP flags, repeated PUBRELs, in any completeness), duplicated datagrams, bursts of 2-6 API calls (Sleep among them) started at the very instant the gateway's DISCONNECT terminates the client, API calls started and left in flight (Register, Subscribe, SubscribePredefined, Publish QoS 0-3, Unsubscribe, Sleep, Ping, Connect, Disconnect) and time advances across retry, keep-alive and the 1-minute sleep wait. Non-trivial = at least one gateway packet arrives while an API call is in flight; distinct by case.",
+		Rule: "real client (with and without keep-alive) against a hostile gateway: 1-40 steps mixing decodable packets of all 28 types with generated fields (message and topic IDs from small pools so that they hit the client's own exchanges, reserved topic-ID type), fragments of QoS 2 deliveries sharing one message ID (PUBLISH copies with drawn DUP flags, repeated PUBRELs, in any completeness), duplicated datagrams, now and then a proper answer to the client's latest request (so that subscriptions and registrations exist when the next packets arrive), bursts of 2-6 API calls (Sleep among them) started at the very instant the gateway's DISCONNECT terminates the client, API calls started and left in flight (Register, Subscribe - also to filters which have more levels than the topics the gateway then publishes on -, SubscribePredefined, Publish QoS 0-3, Unsubscribe, Sleep, Ping, Connect, Disconnect) and time advances across retry, keep-alive and the 1-minute sleep wait. Non-trivial = at least one gateway packet arrives while an API call is in flight; distinct by case.",
 		Assumptions: []string{"oracle: the test process survives (client goroutines have no recover); goroutines blocked for ever are C28's subject and are tolerated here"},
 		Gen:         genC25Client,
 		Run: func(c c25cCase) (r vf.Result) {
@@ -513,6 +518,14 @@ func TestC25Gateway(t *testing.T) {
 					inflight = append(inflight, s.Go(*st.Call))
 					if !st.NoWait {
 						s.Settle()
+					}
+				case st.Ack:
+					if dg := s.ClientDatagrams(); len(dg) > 0 && dg[len(dg)-1].SN != nil {
+						for _, a := range g.Answer(*dg[len(dg)-1].SN) {
+							s.GatewaySend(a, false)
+						}
+						s.Settle()
+						r.Label("proper-answer")
 					}
 				case st.SN != nil:
 					for _, cs := range inflight {
